@@ -28,8 +28,9 @@ class GM(genx.GX):
 
 
 class ModCase:
-    def __init__(self, shape, modules, prog, entry, inputs, placement, dup_import=()):
+    def __init__(self, shape, modules, prog, entry, inputs, placement, dup_import=(), opt=None):
         self.dup_import = set(dup_import)   # modules that spell one of their imports twice
+        self.opt = list(opt) if opt is not None else [False] * len(modules)   # optimisation setting per module
         self.shape = shape
         self.modules = modules      # list of dict(name, imports=[names], funcs=[indices into prog.funcs], globals=[(ty, nm)])
         self.prog = prog            # the single-module program (all globals, all functions in dependency order)
@@ -61,7 +62,7 @@ class ModCase:
         return M.to_source(self.prog, "full")
 
     def show(self):
-        out = ["// shape=%s placement=%r%s" % (self.shape, self.placement,
+        out = ["// shape=%s placement=%r optimize=%r%s" % (self.shape, self.placement, getattr(self, "opt", None),
                                                 (" import-spelled-twice-in=%r" % sorted(self.dup_import)) if getattr(self, "dup_import", None) else "")]
         for k, m in enumerate(self.modules):
             out.append("// ---- module %s ----" % m["name"])
@@ -84,9 +85,15 @@ def modules_case(draw, n_inputs=2):
     modules = []
     all_globals = []
     with_globals = draw(st.integers(0, 9)) < 6
+    # module names: flat, or paths with directories in which several modules share the file name
+    if draw(st.integers(0, 9)) < 3:
+        pool = ["a/util", "b/util", "util", "c/d/util"]
+        mnames = [pool[k] for k in range(n - 1)] + ["app/main"]
+    else:
+        mnames = ["m%d" % k for k in range(n)]
     for k in range(n):
-        name = "m%d" % k
-        imports = ["m%d" % j for j in dag[k]]
+        name = mnames[k]
+        imports = [mnames[j] for j in dag[k]]
         mglobals = []
         if with_globals and draw(st.booleans()):
             mglobals.append((draw(st.sampled_from([INT, FLOAT])), "g%d" % k))
@@ -153,7 +160,8 @@ def modules_case(draw, n_inputs=2):
         inputs.append((args, gl))
     placement = [draw(st.sampled_from(["first", "first", "between", "last"])) for _ in range(n)]
     dup = [k for k in range(n) if dag[k] and draw(st.integers(0, 9)) < 2]
-    return ModCase(shape, modules, prog, "f", inputs, placement, dup)
+    opt = [draw(st.booleans()) for _ in range(n)] if draw(st.integers(0, 9)) < 4 else [False] * n
+    return ModCase(shape, modules, prog, "f", inputs, placement, dup, opt)
 
 
 def _calls_any(f, targets):
